@@ -49,6 +49,9 @@ VOLATILE_ENV = frozenset(
 
 # ------------------------------------------------------------------ scratch $PATH
 
+SLEEP_S = 4.2  # > xonsh's 3 s bounded waits for upstream stages, by a margin
+RETURN_GRACE_S = 0.3  # wind-down allowed to a stage after the command returned
+
 _SCRIPTS = {
     # ok/fail outlive xonsh's spawn sequence (30 ms): whether a child happens to have exited
     # already when xonsh polls it once in passing must not decide the verdict
@@ -57,6 +60,8 @@ _SCRIPTS = {
     "big": "#!/bin/sh\nexec /usr/bin/seq 1 50000\n",  # ~289 KB, quickly
     "slowbig": "#!/bin/sh\nexec /usr/bin/yes c09c09c09c09c09c09c09c09c09c09c09\n",  # until SIGPIPE
     "killed": "#!/bin/sh\n/bin/sleep 0.03\nkill -9 $$\n",  # dies from a signal
+    # lives SLEEP_S seconds and never touches its stdin/stdout: closing its pipe does not stop it
+    "sleeper": "#!/bin/sh\nexec /bin/sleep %s\n" % SLEEP_S,
     "eat": "#!/bin/sh\nwhile IFS= read -r l; do :; done\nexit 0\n",
     # (head1 too outlives the spawn sequence, see ok/fail; its producer is still writing then)
     "head1": "#!/bin/sh\nIFS= read -r l\necho \"$l\"\n/bin/sleep 0.03\nexit 0\n",
@@ -125,13 +130,18 @@ def _a_slowbig(args, stdin=None, stdout=None, stderr=None):
     return 0
 
 
+def _a_sleep(args, stdin=None, stdout=None, stderr=None):
+    time.sleep(SLEEP_S)  # a long-lived stage that never touches its pipe
+    return 0
+
+
 def _a_head1(args, stdin=None, stdout=None, stderr=None):
     line = stdin.readline() if stdin is not None else ""
     stdout.write(line)
     return 0
 
 
-ALIASES = {"ok": _a_ok, "raise": _a_raise, "exit": _a_exit, "rc1": _a_rc1, "early": _a_early, "big": _a_big, "slowbig": _a_slowbig, "head1": _a_head1}
+ALIASES = {"ok": _a_ok, "raise": _a_raise, "exit": _a_exit, "rc1": _a_rc1, "early": _a_early, "big": _a_big, "slowbig": _a_slowbig, "sleep": _a_sleep, "head1": _a_head1}
 
 # stage kind -> command word
 WORD = {
@@ -140,6 +150,7 @@ WORD = {
     "ext_big": "big",
     "ext_slowbig": "slowbig",
     "ext_eat": "eat",
+    "ext_sleep": "sleeper",
     "ext_killed": "killed",
     "ext_head1": "head1",
     "ext_nularg": "ok @('a\\x00b')",  # a NUL byte in argv: xonsh escapes it (_fix_null_cmd_bytes)
@@ -489,6 +500,13 @@ def snapshot(XSH, work, base, tty=False):
     }
 
 
+def _stages_running():
+    """{'child': n, 'ProcProxyThread': m}: stage processes / alias threads running right now."""
+    n = sum(1 for _p, st in _children() if st != "Z")
+    m = sum(1 for t in threading.enumerate() if type(t).__name__ == "ProcProxyThread" and t.is_alive())
+    return {"child": n, "ProcProxyThread": m}
+
+
 def quiesce():
     """gc + real-time poll until no helper thread is alive and no child is still running (a
     zombie with no helper thread left will not be reaped by anybody: final)."""
@@ -655,6 +673,7 @@ def _child(case, resfd, slave=None):
         outcomes = []
         logs = []
         handed = []
+        running_at_return = []
         threading.excepthook = _excepthook
         signal.signal(signal.SIGALRM, _alarm)
         signal.setitimer(signal.ITIMER_REAL, EXEC_ALARM)
@@ -671,6 +690,13 @@ def _child(case, resfd, slave=None):
                     del e
                 outcomes.append(exc)
                 logs.append(list(inj.log))
+                # right when the command returns: is a foreground stage (child process or alias
+                # thread) still running?  A short grace separates wind-down from 'returned early'.
+                at_ret = _stages_running()
+                if any(at_ret.values()):
+                    time.sleep(RETURN_GRACE_S)
+                    at_ret = _stages_running()
+                running_at_return.append(at_ret)
                 if tty:
                     # coverage only (not the oracle): did xonsh give the terminal away in this run?
                     handed.append(getattr(getattr(XSH, "lastcmd", None), "term_pgid", None) is not None)
@@ -689,6 +715,7 @@ def _child(case, resfd, slave=None):
             signal.setitimer(signal.ITIMER_REAL, 0)
         res["outcomes"] = outcomes
         res["handed_over"] = handed
+        res["running_at_return"] = running_at_return
         res["thread_deaths"] = sorted(set(_THREAD_DEATHS))
         res["injected_thread_deaths"] = sorted(set(_INJECTED_DEATHS))
         res["log"] = logs[0] if logs else []
